@@ -2,250 +2,491 @@ import PqModel.WriteOwn
 
 /-! # Frame lemmas for `PqModel.WriteOwn`: each mirror is `Safe` when its inner writer is
 
-`Safe pv w`: from any state whose owned headers point to unprotected arrays and any memory in which
-the protected arrays exist, one `WriteRows` call keeps every protected array cell by cell and
-re-establishes the invariant. -/
+`Safe pv pr w`: from any state whose owned headers point to unprotected arrays of the right kind, any
+`[]Row` memory that keeps the typing discipline and any memories in which the protected arrays exist
+(`Good`), one `WriteRows` call keeps every protected `[]Value` array and every protected `[]Row` array
+cell by cell and re-establishes `Good`. -/
 namespace PqModel.WriteOwn
 
-def Unprot (pv : Nat → Bool) (l : List Hdr) : Prop := ∀ h ∈ l, pv h.arr = false
+/-! ### stores into `[]Row` arrays -/
 
-theorem Unprot.getD {pv : Nat → Bool} {l : List Hdr} (hl : Unprot pv l) (h0 : pv 0 = false) (i : Nat) :
-    pv (l.getD i Hdr.nil).arr = false := by
-  rw [List.getD_eq_getElem?_getD]
-  cases h : l[i]? with
-  | none => exact h0
-  | some x => exact hl x (List.mem_of_getElem? h)
+theorem mem_writeAt {α : Type} {l xs : List α} {i : Nat} {x : α} (h : x ∈ writeAt l i xs) : x ∈ l ∨ x ∈ xs := by
+  unfold writeAt at h
+  simp only [List.mem_append] at h
+  rcases h with (h | h) | h
+  · exact Or.inl (List.mem_of_mem_take h)
+  · exact Or.inr h
+  · exact Or.inl (List.mem_of_mem_drop h)
 
-theorem Unprot.set {pv : Nat → Bool} {l : List Hdr} (hl : Unprot pv l) (i : Nat) {x : Hdr}
-    (hx : pv x.arr = false) : Unprot pv (l.set i x) := by
-  intro h hh
-  rcases List.mem_or_eq_of_mem_set hh with h1 | h1
-  · exact hl h h1
-  · exact h1 ▸ hx
+theorem tagOf_storeR (rm : RMem) (a i : Nat) (hs : List Hdr) (b : Nat) : tagOf (storeR rm a i hs) b = tagOf rm b := by
+  unfold storeR
+  by_cases hab : a = b
+  · subst hab
+    by_cases hlt : a < rm.length
+    · simp [tagOf, List.getD_eq_getElem?_getD, List.getElem?_set_self hlt]
+    · have : rm.set a (tagOf rm a, writeAt (cellsOf rm a) i hs) = rm := by
+        apply List.set_eq_of_length_le; omega
+      rw [this]
+  · simp [tagOf, List.getD_eq_getElem?_getD, List.getElem?_set_ne hab]
 
-theorem Unprot.take {pv : Nat → Bool} {l : List Hdr} (hl : Unprot pv l) (n : Nat) : Unprot pv (l.take n) :=
-  fun h hh => hl h (List.mem_of_mem_take hh)
+theorem cellsOf_storeR_ne (rm : RMem) (a i : Nat) (hs : List Hdr) {b : Nat} (hab : a ≠ b) :
+    cellsOf (storeR rm a i hs) b = cellsOf rm b := by
+  simp [storeR, cellsOf, List.getD_eq_getElem?_getD, List.getElem?_set_ne hab]
+
+theorem mem_cellsOf_storeR {rm : RMem} {a i : Nat} {hs : List Hdr} {x : Hdr}
+    (h : x ∈ cellsOf (storeR rm a i hs) a) : x ∈ cellsOf rm a ∨ x ∈ hs := by
+  by_cases hlt : a < rm.length
+  · have : cellsOf (storeR rm a i hs) a = writeAt (cellsOf rm a) i hs := by
+      simp [storeR, cellsOf, List.getD_eq_getElem?_getD, List.getElem?_set_self hlt]
+    rw [this] at h
+    exact mem_writeAt h
+  · have : storeR rm a i hs = rm := by
+      unfold storeR; apply List.set_eq_of_length_le; omega
+    rw [this] at h
+    exact Or.inl h
+
+theorem storeR_keeps {pr : Nat → Bool} (rm : RMem) (a i : Nat) (hs : List Hdr) (ha : pr a = false) :
+    KeepsR pr rm (storeR rm a i hs) := by
+  refine ⟨by simp [storeR], fun b _ => tagOf_storeR rm a i hs b, fun x hx => ?_⟩
+  have hne : a ≠ x := by intro e; subst e; simp [ha] at hx
+  simp [storeR, List.getElem?_set_ne hne]
+
+/-- a store keeps the typing when the array is one of references, or the stored headers are unprotected -/
+theorem storeR_slots {pv : Nat → Bool} {rm : RMem} (hs : SlotsOk pv rm) (a i : Nat) (xs : List Hdr)
+    (hx : tagOf rm a = true → ∀ h ∈ xs, pv h.arr = false) : SlotsOk pv (storeR rm a i xs) := by
+  intro b hb h hh
+  rw [tagOf_storeR] at hb
+  by_cases hab : a = b
+  · subst hab
+    rcases mem_cellsOf_storeR hh with h1 | h1
+    · exact hs a hb h h1
+    · exact hx hb h h1
+  · rw [cellsOf_storeR_ne rm a i xs hab] at hh
+    exact hs b hb h hh
+
+theorem tagOf_lt {rm : RMem} {a : Nat} (h : tagOf rm a = true) : a < rm.length := by
+  apply Classical.byContradiction
+  intro hge
+  have : tagOf rm a = false := by
+    unfold tagOf
+    rw [List.getD_eq_getElem?_getD, List.getElem?_eq_none (Nat.le_of_not_lt hge)]
+    rfl
+  rw [this] at h
+  cases h
+
+theorem tagOf_push_lt (rm : RMem) (x : Bool × List Hdr) {a : Nat} (h : a < rm.length) :
+    tagOf (rm ++ [x]) a = tagOf rm a := by
+  simp [tagOf, List.getD_eq_getElem?_getD, List.getElem?_append_left h]
+
+theorem cellsOf_push_lt (rm : RMem) (x : Bool × List Hdr) {a : Nat} (h : a < rm.length) :
+    cellsOf (rm ++ [x]) a = cellsOf rm a := by
+  simp [cellsOf, List.getD_eq_getElem?_getD, List.getElem?_append_left h]
+
+theorem tagOf_push_self (rm : RMem) (x : Bool × List Hdr) : tagOf (rm ++ [x]) rm.length = x.1 := by
+  simp [tagOf, List.getD_eq_getElem?_getD]
+
+theorem cellsOf_push_self (rm : RMem) (x : Bool × List Hdr) : cellsOf (rm ++ [x]) rm.length = x.2 := by
+  simp [cellsOf, List.getD_eq_getElem?_getD]
+
+theorem push_keeps {pr : Nat → Bool} (rm : RMem) (x : Bool × List Hdr) (hb : BoundedR pr rm) :
+    KeepsR pr rm (rm ++ [x]) := by
+  refine ⟨by simp, fun a ha => tagOf_push_lt rm x ha, fun a ha => ?_⟩
+  have := hb a ha
+  simp [List.getElem?_append_left this]
+
+theorem push_slots {pv : Nat → Bool} {rm : RMem} (hs : SlotsOk pv rm) (x : Bool × List Hdr)
+    (hx : x.1 = true → ∀ h ∈ x.2, pv h.arr = false) : SlotsOk pv (rm ++ [x]) := by
+  intro b hb h hh
+  have hlt := tagOf_lt hb
+  simp only [List.length_append, List.length_cons, List.length_nil] at hlt
+  by_cases hbl : b < rm.length
+  · rw [tagOf_push_lt rm x hbl] at hb
+    rw [cellsOf_push_lt rm x hbl] at hh
+    exact hs b hb h hh
+  · have : b = rm.length := by omega
+    subst this
+    rw [tagOf_push_self] at hb
+    rw [cellsOf_push_self] at hh
+    exact hx hb h hh
+
+theorem fresh_unprot {pr : Nat → Bool} {rm : RMem} (hb : BoundedR pr rm) : pr rm.length = false := by
+  cases hp : pr rm.length with
+  | false => rfl
+  | true => exact absurd (hb _ hp) (Nat.lt_irrefl _)
+
+theorem fresh_unprot_v {pv : Nat → Bool} {m : Mem} (hb : Bounded pv m) : pv m.length = false := by
+  cases hp : pv m.length with
+  | false => rfl
+  | true => exact absurd (hb _ hp) (Nat.lt_irrefl _)
+
+theorem mem_rowsOf {rm : RMem} {h : RHdr} {x : Hdr} (hx : x ∈ rowsOf rm h) : x ∈ cellsOf rm h.arr :=
+  List.mem_of_mem_drop (List.mem_of_mem_take hx)
+
+/-- `append` on an unprotected `[]Row` array of kind `tag`: protected arrays are kept, the result is
+    again an unprotected existing array of kind `tag`, the typing is kept when the appended headers
+    fit the kind -/
+theorem appendR_spec {pv pr : Nat → Bool} (rm : RMem) (tag : Bool) (h : RHdr) (xs : List Hdr)
+    (hbr : BoundedR pr rm) (hs : SlotsOk pv rm) (hp : pr h.arr = false) (hl : h.arr < rm.length)
+    (ht : tagOf rm h.arr = tag) (hx : tag = true → ∀ x ∈ xs, pv x.arr = false) :
+    KeepsR pr rm (appendR rm tag h xs).1 ∧ SlotsOk pv (appendR rm tag h xs).1 ∧
+      pr (appendR rm tag h xs).2.arr = false ∧ (appendR rm tag h xs).2.arr < (appendR rm tag h xs).1.length ∧
+      tagOf (appendR rm tag h xs).1 (appendR rm tag h xs).2.arr = tag := by
+  unfold appendR
+  split
+  · refine ⟨storeR_keeps rm _ _ _ hp, storeR_slots hs _ _ _ (fun h1 => hx (ht ▸ h1)), hp, ?_, ?_⟩
+    · simpa [storeR] using hl
+    · simpa [tagOf_storeR] using ht
+  · refine ⟨push_keeps rm _ hbr, push_slots hs _ ?_, fresh_unprot hbr, by simp, tagOf_push_self rm _⟩
+    intro htag x hxm
+    simp only at htag hxm
+    rcases List.mem_append.mp hxm with h1 | h1
+    · exact hs h.arr (ht.trans htag) x (mem_rowsOf h1)
+    · exact hx htag x h1
+
+theorem Good.mk' {pv pr : Nat → Bool} {st st' : St} {m m' : Mem} {rm rm' : RMem} (hg : Good pv pr st m rm)
+    (hk : Keeps pv m m') (hkr : KeepsR pr rm rm') (hs : SlotsOk pv rm') (ho : Own pv pr st' rm') :
+    Good pv pr st' m' rm' :=
+  ⟨ho, hs, hg.bm.mono hk, hg.br.mono hkr⟩
+
+theorem untagged {pv : Nat → Bool} {rm : RMem} {a : Nat} {xs : List Hdr} (ht : tagOf rm a = false) :
+    tagOf rm a = true → ∀ h ∈ xs, pv h.arr = false := by
+  intro h1
+  rw [ht] at h1
+  cases h1
 
 /-! ### leaves -/
 
-theorem sink_safe (pv : Nat → Bool) (id failAt : Nat) : Safe pv (sinkWrite id failAt) := by
-  intro st m rows ho _
-  have hn := ho.node id
+theorem sink_safe (pv pr : Nat → Bool) (id failAt : Nat) : Safe pv pr (sinkWrite id failAt) := by
+  intro st m rm rows hg
+  have hn := hg.own.node id
   unfold sinkWrite
   simp only []
   split
-  · exact ⟨Keeps.refl _ _, ho.set id ⟨hn.1, hn.2⟩⟩
-  · exact ⟨Keeps.refl _ _, ho.set id ⟨hn.1, hn.2⟩⟩
+  · exact ⟨Keeps.refl _ _, KeepsR.refl _ _, ⟨hg.own.set id ⟨hn.1, hn.2.1, hn.2.2⟩, hg.slots, hg.bm, hg.br⟩⟩
+  · exact ⟨Keeps.refl _ _, KeepsR.refl _ _, ⟨hg.own.set id ⟨hn.1, hn.2.1, hn.2.2⟩, hg.slots, hg.bm, hg.br⟩⟩
 
 /-- invariant of the `RowBuffer.WriteRows` loop -/
-def RowbufInv (pv : Nat → Bool) (m0 : Mem) (acc : Mem × Hdr × List Hdr) : Prop :=
-  Keeps pv m0 acc.1 ∧ Bounded pv acc.1 ∧ pv acc.2.1.arr = false ∧ Unprot pv acc.2.2
+def RowbufInv (pv pr : Nat → Bool) (m0 : Mem) (rm0 : RMem) (acc : Mem × RMem × Hdr × RHdr) : Prop :=
+  Keeps pv m0 acc.1 ∧ KeepsR pr rm0 acc.2.1 ∧ Bounded pv acc.1 ∧ BoundedR pr acc.2.1 ∧ SlotsOk pv acc.2.1 ∧
+    pv acc.2.2.1.arr = false ∧
+    (pr acc.2.2.2.arr = false ∧ acc.2.2.2.arr < acc.2.1.length ∧ tagOf acc.2.1 acc.2.2.2.arr = true)
 
-theorem rowbufStep_inv {pv : Nat → Bool} {m0 : Mem} {acc : Mem × Hdr × List Hdr} (r : Hdr)
-    (hi : RowbufInv pv m0 acc) : RowbufInv pv m0 (rowbufStep acc r) := by
-  obtain ⟨m, vals, slots⟩ := acc
-  obtain ⟨hk, hb, hv, hs⟩ := hi
+theorem rowbufStep_inv {pv pr : Nat → Bool} {m0 : Mem} {rm0 : RMem} {acc : Mem × RMem × Hdr × RHdr} (r : Hdr)
+    (hi : RowbufInv pv pr m0 rm0 acc) : RowbufInv pv pr m0 rm0 (rowbufStep acc r) := by
+  obtain ⟨m, rm, vals, slots⟩ := acc
+  obtain ⟨hk, hkr, hb, hbr, hs, hv, hp, hl, ht⟩ := hi
   have ha := append_keeps m vals (row m r) hb hv
+  have hx : true = true → ∀ x ∈ [(⟨(append m vals (row m r)).2.arr, (append m vals (row m r)).2.off + vals.len, r.len, r.len⟩ : Hdr)],
+      pv x.arr = false := by
+    intro _ x hxm
+    simp only [List.mem_singleton] at hxm
+    subst hxm
+    exact ha.2
+  have hr := appendR_spec rm true slots _ hbr hs hp hl ht hx
   unfold rowbufStep
   simp only []
-  refine ⟨hk.trans ha.1, hb.mono ha.1, ha.2, ?_⟩
-  intro h hh
-  rcases List.mem_append.mp hh with h1 | h1
-  · exact hs h h1
-  · simp only [List.mem_singleton] at h1
-    subst h1
-    exact ha.2
+  exact ⟨hk.trans ha.1, hkr.trans hr.1, hb.mono ha.1, hbr.mono hr.1, hr.2.1, ha.2, hr.2.2.1, hr.2.2.2.1, hr.2.2.2.2⟩
 
-theorem foldl_rowbuf_inv {pv : Nat → Bool} {m0 : Mem} (rows : List Hdr) :
-    ∀ acc, RowbufInv pv m0 acc → RowbufInv pv m0 (rows.foldl rowbufStep acc) := by
+theorem foldl_rowbuf_inv {pv pr : Nat → Bool} {m0 : Mem} {rm0 : RMem} (rows : List Hdr) :
+    ∀ acc, RowbufInv pv pr m0 rm0 acc → RowbufInv pv pr m0 rm0 (rows.foldl rowbufStep acc) := by
   induction rows with
   | nil => intro acc h; exact h
   | cons r rs ih => intro acc h; exact ih _ (rowbufStep_inv r h)
 
-theorem rowbuf_safe (pv : Nat → Bool) (id : Nat) : Safe pv (rowbufWrite id) := by
-  intro st m rows ho hb
-  have hn := ho.node id
-  have hi : RowbufInv pv m (m, (st.node id).hdr, (st.node id).slots) := ⟨Keeps.refl _ _, hb, hn.2, hn.1⟩
-  have := foldl_rowbuf_inv rows _ hi
+theorem rowbuf_safe (pv pr : Nat → Bool) (id : Nat) : Safe pv pr (rowbufWrite id) := by
+  intro st m rm rows hg
+  have hn := hg.own.node id
+  have hi : RowbufInv pv pr m rm (m, rm, (st.node id).hdr, (st.node id).slots) :=
+    ⟨Keeps.refl _ _, KeepsR.refl _ _, hg.bm, hg.br, hg.slots, hn.2.2, hn.2.1.1, tagOf_lt hn.2.1.2, hn.2.1.2⟩
+  have := foldl_rowbuf_inv (rowsOf rm rows) _ hi
   unfold rowbufWrite
-  generalize rows.foldl rowbufStep (m, (st.node id).hdr, (st.node id).slots) = acc at this
-  obtain ⟨m1, vals1, slots1⟩ := acc
-  exact ⟨this.1, ho.set id ⟨this.2.2.2, this.2.2.1⟩⟩
+  generalize (rowsOf rm rows).foldl rowbufStep (m, rm, (st.node id).hdr, (st.node id).slots) = acc at this
+  obtain ⟨m1, rm1, vals1, slots1⟩ := acc
+  obtain ⟨hk, hkr, hb, hbr, hs, hv, hp, hl, ht⟩ := this
+  have ho1 := hg.own.mono hkr
+  exact ⟨hk, hkr, ⟨ho1.set id ⟨(ho1.node id).1, ⟨hp, ht⟩, hv⟩, hs, hb, hbr⟩⟩
 
 /-! ### filter (repaired) -/
 
-theorem filterChunks_safe {pv : Nat → Bool} (B : Beh) (id k : Nat) {inner : St → Mem → List Hdr → Res}
-    (hin : Safe pv inner) (m0 : Mem) :
-    ∀ (cs : List (List Hdr)) (st : St) (m : Mem) (n : Nat), Own pv st → Bounded pv m → Keeps pv m0 m →
-      Keeps pv m0 (filterChunks B id k inner cs st m n).2.1 ∧ Own pv (filterChunks B id k inner cs st m n).1 := by
+theorem filterInit_spec {pv pr : Nat → Bool} (id : Nat) {st : St} {m : Mem} {rm : RMem} (hg : Good pv pr st m rm) :
+    KeepsR pr rm (filterInit id st rm).2 ∧ Good pv pr (filterInit id st rm).1 m (filterInit id st rm).2 := by
+  unfold filterInit
+  split
+  · exact ⟨KeepsR.refl _ _, hg⟩
+  · have hk := push_keeps rm (false, List.replicate filterRowBufferSize Hdr.nil) hg.br
+    have hs := push_slots hg.slots (false, List.replicate filterRowBufferSize Hdr.nil)
+      (by intro h; cases h)
+    have ho := hg.own.mono hk
+    have hn := ho.node id
+    refine ⟨hk, ⟨ho.set id ⟨⟨fresh_unprot hg.br, by simp, tagOf_push_self rm _⟩, hn.2.1, hn.2.2⟩, hs, hg.bm, hg.br.mono hk⟩⟩
+
+theorem filterChunks_safe {pv pr : Nat → Bool} (B : Beh) (id k : Nat) {inner : Writer}
+    (hin : Safe pv pr inner) (m0 : Mem) (rm0 : RMem) :
+    ∀ (cs : List (List Hdr)) (st : St) (m : Mem) (rm : RMem) (n : Nat), Good pv pr st m rm →
+      Keeps pv m0 m → KeepsR pr rm0 rm →
+      Keeps pv m0 (filterChunks B id k inner cs st m rm n).2.1 ∧
+      KeepsR pr rm0 (filterChunks B id k inner cs st m rm n).2.2.1 ∧
+      Good pv pr (filterChunks B id k inner cs st m rm n).1 (filterChunks B id k inner cs st m rm n).2.1
+        (filterChunks B id k inner cs st m rm n).2.2.1 := by
   intro cs
   induction cs with
-  | nil => intro st m n ho _ hk; exact ⟨hk, ho⟩
+  | nil => intro st m rm n hg hk hkr; exact ⟨hk, hkr, hg⟩
   | cons c cs ih =>
-    intro st m n ho hb hk
-    have hn := ho.node id
-    have ho1 : Own pv (st.set id { st.node id with
-        held := overwritePrefix (st.node id).held (c.filter fun h => B.pred k (row m h)) }) :=
-      ho.set id ⟨hn.1, hn.2⟩
+    intro st m rm n hg hk hkr
+    have hn := hg.own.node id
+    have hk1 := storeR_keeps (pr := pr) rm (st.node id).held.arr (st.node id).held.off
+      (c.filter fun h => B.pred k (row m h)) hn.1.1
+    have hs1 := storeR_slots hg.slots (st.node id).held.arr (st.node id).held.off
+      (c.filter fun h => B.pred k (row m h)) (untagged hn.1.2.2)
+    have hg1 : Good pv pr st m (storeR rm (st.node id).held.arr (st.node id).held.off
+        (c.filter fun h => B.pred k (row m h))) := ⟨hg.own.mono hk1, hs1, hg.bm, hg.br.mono hk1⟩
     unfold filterChunks
     simp only []
     split
-    · have hs := hin _ m (c.filter fun h => B.pred k (row m h)) ho1 hb
+    · have hs := hin st m _ ⟨(st.node id).held.arr, (st.node id).held.off,
+        (c.filter fun h => B.pred k (row m h)).length, (st.node id).held.cap⟩ hg1
       split
-      · exact ⟨hk.trans hs.1, hs.2⟩
-      · exact ih _ _ _ hs.2 (hb.mono hs.1) (hk.trans hs.1)
-    · exact ih _ _ _ ho1 hb hk
+      · exact ⟨hk.trans hs.1, (hkr.trans hk1).trans hs.2.1, hs.2.2⟩
+      · exact ih _ _ _ _ hs.2.2 (hk.trans hs.1) ((hkr.trans hk1).trans hs.2.1)
+    · exact ih _ _ _ _ hg1 hk (hkr.trans hk1)
 
-theorem filter_safe (pv : Nat → Bool) (B : Beh) (id k : Nat) {inner : St → Mem → List Hdr → Res}
-    (hin : Safe pv inner) : Safe pv (filterWrite B false id k inner) := by
-  intro st m rows ho hb
-  have hn := ho.node id
-  have ho0 : Own pv (if (st.node id).held.length = filterRowBufferSize then st
-      else st.set id { st.node id with held := List.replicate filterRowBufferSize Hdr.nil }) := by
-    split
-    · exact ho
-    · exact ho.set id ⟨hn.1, hn.2⟩
-  have := filterChunks_safe B id k hin m (chunks filterRowBufferSize rows.length rows) _ m 0 ho0 hb (Keeps.refl _ _)
+theorem filter_safe (pv pr : Nat → Bool) (B : Beh) (id k : Nat) {inner : Writer}
+    (hin : Safe pv pr inner) : Safe pv pr (filterWrite B false id k inner) := by
+  intro st m rm rows hg
+  have h0 := filterInit_spec id hg
+  have := filterChunks_safe B id k hin m (filterInit id st rm).2
+    (chunks filterRowBufferSize (rowsOf (filterInit id st rm).2 rows).length (rowsOf (filterInit id st rm).2 rows))
+    _ m _ 0 h0.2 (Keeps.refl _ _) (KeepsR.refl _ _)
   unfold filterWrite
   simp only [Bool.false_eq_true, if_false]
-  have hn1 := this.2.node id
-  exact ⟨this.1, this.2.set id ⟨hn1.1, hn1.2⟩⟩
+  obtain ⟨hk, hkr, hg1⟩ := this
+  have hn1 := hg1.own.node id
+  have hk2 := storeR_keeps (pr := pr) (filterChunks B id k inner
+      (chunks filterRowBufferSize (rowsOf (filterInit id st rm).2 rows).length (rowsOf (filterInit id st rm).2 rows))
+      (filterInit id st rm).1 m (filterInit id st rm).2 0).2.2.1 _ ((filterChunks B id k inner
+      (chunks filterRowBufferSize (rowsOf (filterInit id st rm).2 rows).length (rowsOf (filterInit id st rm).2 rows))
+      (filterInit id st rm).1 m (filterInit id st rm).2 0).1.node id).held.off
+      (List.replicate ((filterChunks B id k inner
+      (chunks filterRowBufferSize (rowsOf (filterInit id st rm).2 rows).length (rowsOf (filterInit id st rm).2 rows))
+      (filterInit id st rm).1 m (filterInit id st rm).2 0).1.node id).held.len Hdr.nil) hn1.1.1
+  exact ⟨hk, (h0.1.trans hkr).trans hk2,
+    ⟨hg1.own.mono hk2, storeR_slots hg1.slots _ _ _ (untagged hn1.1.2.2), hg1.bm, hg1.br.mono hk2⟩⟩
 
 /-! ### transform -/
 
-/-- invariant of the loop of `transformRowWriter.writeRows` -/
-def TrInv (pv : Nat → Bool) (m0 : Mem) (acc : Mem × List Hdr × Nat × Bool) : Prop :=
-  Keeps pv m0 acc.1 ∧ Bounded pv acc.1 ∧ Unprot pv acc.2.1
+theorem slotAt_unprot {pv : Nat → Bool} {rm : RMem} (hs : SlotsOk pv rm) (h0 : pv 0 = false) (sl : RHdr)
+    (ht : tagOf rm sl.arr = true) (i : Nat) : pv (slotAt rm sl i).arr = false := by
+  unfold slotAt
+  rw [List.getD_eq_getElem?_getD]
+  cases h : (cellsOf rm sl.arr)[sl.off + i]? with
+  | none => exact h0
+  | some x => exact hs _ ht x (List.mem_of_getElem? h)
 
-theorem transformStep_inv {pv : Nat → Bool} (B : Beh) (k : Nat) {m0 : Mem} (h0 : pv 0 = false)
-    {acc : Mem × List Hdr × Nat × Bool} (src : Hdr) (hi : TrInv pv m0 acc) :
-    TrInv pv m0 (transformStep B k acc src) := by
-  obtain ⟨m, slots, num, failed⟩ := acc
-  obtain ⟨hk, hb, hs⟩ := hi
-  have hd : pv ({ slots.getD num Hdr.nil with len := 0 } : Hdr).arr = false := hs.getD h0 num
+/-- invariant of the loop of `transformRowWriter.writeRows` over `t.rows` = `sl` -/
+def TrInv (pv pr : Nat → Bool) (sl : RHdr) (m0 : Mem) (rm0 : RMem) (acc : Mem × RMem × Nat × Bool) : Prop :=
+  Keeps pv m0 acc.1 ∧ KeepsR pr rm0 acc.2.1 ∧ Bounded pv acc.1 ∧ BoundedR pr acc.2.1 ∧ SlotsOk pv acc.2.1 ∧
+    tagOf acc.2.1 sl.arr = true
+
+theorem one_unprot {pv : Nat → Bool} {rm : RMem} {a : Nat} {x : Hdr} (hx : pv x.arr = false) :
+    tagOf rm a = true → ∀ h ∈ [x], pv h.arr = false := by
+  intro _ h hh
+  simp only [List.mem_singleton] at hh
+  subst hh
+  exact hx
+
+theorem transformStep_inv {pv pr : Nat → Bool} (B : Beh) (k : Nat) (sl : RHdr) {m0 : Mem} {rm0 : RMem}
+    (h0 : pv 0 = false) (hp : pr sl.arr = false)
+    {acc : Mem × RMem × Nat × Bool} (src : Hdr) (hi : TrInv pv pr sl m0 rm0 acc) :
+    TrInv pv pr sl m0 rm0 (transformStep B k sl acc src) := by
+  obtain ⟨m, rm, num, failed⟩ := acc
+  obtain ⟨hk, hkr, hb, hbr, hs, ht⟩ := hi
+  have hd : pv ({ slotAt rm sl num with len := 0 } : Hdr).arr = false := slotAt_unprot hs h0 sl ht num
+  have stepR : ∀ x : Hdr, pv x.arr = false →
+      KeepsR pr rm0 (storeR rm sl.arr (sl.off + num) [x]) ∧ BoundedR pr (storeR rm sl.arr (sl.off + num) [x]) ∧
+      SlotsOk pv (storeR rm sl.arr (sl.off + num) [x]) ∧ tagOf (storeR rm sl.arr (sl.off + num) [x]) sl.arr = true := by
+    intro x hx
+    have hk1 := storeR_keeps (pr := pr) rm sl.arr (sl.off + num) [x] hp
+    exact ⟨hkr.trans hk1, hbr.mono hk1, storeR_slots hs _ _ _ (one_unprot hx), by rw [tagOf_storeR]; exact ht⟩
   unfold transformStep
   simp only []
   split
-  · exact ⟨hk, hb, hs⟩
+  · exact ⟨hk, hkr, hb, hbr, hs, ht⟩
   · split
-    · exact ⟨hk, hb, hs⟩
-    · exact ⟨hk, hb, hs.set num hd⟩
+    · exact ⟨hk, hkr, hb, hbr, hs, ht⟩
+    · have := stepR _ hd
+      exact ⟨hk, this.1, hb, this.2.1, this.2.2.1, this.2.2.2⟩
     · have ha := append_keeps m _ (row m src) hb hd
-      exact ⟨hk.trans ha.1, hb.mono ha.1, hs.set num ha.2⟩
+      have := stepR _ ha.2
+      exact ⟨hk.trans ha.1, this.1, hb.mono ha.1, this.2.1, this.2.2.1, this.2.2.2⟩
     · have ha := append_keeps m _ (row m src) hb hd
-      have ha2 := append_keeps _ _ (row (append m { slots.getD num Hdr.nil with len := 0 } (row m src)).1 src)
+      have ha2 := append_keeps _ _ (row (append m { slotAt rm sl num with len := 0 } (row m src)).1 src)
         (hb.mono ha.1) ha.2
-      exact ⟨(hk.trans ha.1).trans ha2.1, (hb.mono ha.1).mono ha2.1, hs.set num ha2.2⟩
+      have := stepR _ ha2.2
+      exact ⟨(hk.trans ha.1).trans ha2.1, this.1, (hb.mono ha.1).mono ha2.1, this.2.1, this.2.2.1, this.2.2.2⟩
 
-theorem foldl_transform_inv {pv : Nat → Bool} (B : Beh) (k : Nat) {m0 : Mem} (h0 : pv 0 = false)
-    (c : List Hdr) : ∀ acc, TrInv pv m0 acc → TrInv pv m0 (c.foldl (transformStep B k) acc) := by
+theorem foldl_transform_inv {pv pr : Nat → Bool} (B : Beh) (k : Nat) (sl : RHdr) {m0 : Mem} {rm0 : RMem}
+    (h0 : pv 0 = false) (hp : pr sl.arr = false) (c : List Hdr) :
+    ∀ acc, TrInv pv pr sl m0 rm0 acc → TrInv pv pr sl m0 rm0 (c.foldl (transformStep B k sl) acc) := by
   induction c with
   | nil => intro acc h; exact h
-  | cons r rs ih => intro acc h; exact ih _ (transformStep_inv B k h0 r h)
+  | cons r rs ih => intro acc h; exact ih _ (transformStep_inv B k sl h0 hp r h)
 
-theorem clearSlots_inv {pv : Nat → Bool} {m0 : Mem} (h0 : pv 0 = false) :
-    ∀ (fuel i : Nat) (m : Mem) (slots : List Hdr), Keeps pv m0 m → Bounded pv m → Unprot pv slots →
-      Keeps pv m0 (clearSlots fuel i m slots).1 ∧ Bounded pv (clearSlots fuel i m slots).1 ∧
-      Unprot pv (clearSlots fuel i m slots).2 := by
+theorem clearSlots_inv {pv pr : Nat → Bool} {m0 : Mem} {rm0 : RMem} (h0 : pv 0 = false) (sl : RHdr)
+    (hp : pr sl.arr = false) :
+    ∀ (fuel i : Nat) (m : Mem) (rm : RMem), TrInv pv pr sl m0 rm0 (m, rm, 0, false) →
+      TrInv pv pr sl m0 rm0 ((clearSlots sl fuel i m rm).1, (clearSlots sl fuel i m rm).2, 0, false) := by
   intro fuel
   induction fuel with
-  | zero => intro i m slots hk hb hs; exact ⟨hk, hb, hs⟩
+  | zero => intro i m rm h; exact h
   | succ f ih =>
-    intro i m slots hk hb hs
-    have hd : pv (slots.getD i Hdr.nil).arr = false := hs.getD h0 i
-    have hc := clearValues_keeps (pv := pv) m (slots.getD i Hdr.nil) hd
+    intro i m rm h
+    obtain ⟨hk, hkr, hb, hbr, hs, ht⟩ := h
+    have hd : pv (slotAt rm sl i).arr = false := slotAt_unprot hs h0 sl ht i
+    have hc := clearValues_keeps (pv := pv) m (slotAt rm sl i) hd
+    have hk1 := storeR_keeps (pr := pr) rm sl.arr (sl.off + i) [{ slotAt rm sl i with len := 0 }] hp
     unfold clearSlots
-    exact ih _ _ _ (hk.trans hc) (hb.mono hc) (hs.set i hd)
+    exact ih _ _ _ ⟨hk.trans hc, hkr.trans hk1, hb.mono hc, hbr.mono hk1,
+      storeR_slots hs _ _ _ (one_unprot (x := { slotAt rm sl i with len := 0 }) hd), by rw [tagOf_storeR]; exact ht⟩
 
-theorem transformChunks_safe {pv : Nat → Bool} (B : Beh) (id k : Nat) {inner : St → Mem → List Hdr → Res}
-    (hin : Safe pv inner) (m0 : Mem) :
-    ∀ (cs : List (List Hdr)) (st : St) (m : Mem) (n : Nat), Own pv st → Bounded pv m → Keeps pv m0 m →
-      Keeps pv m0 (transformChunks B id k inner cs st m n).m ∧ Own pv (transformChunks B id k inner cs st m n).st := by
+theorem transformChunks_safe {pv pr : Nat → Bool} (B : Beh) (id k : Nat) {inner : Writer}
+    (hin : Safe pv pr inner) :
+    ∀ (cs : List (List Hdr)) (st : St) (m : Mem) (rm : RMem) (n : Nat), Good pv pr st m rm →
+      Keeps pv m (transformChunks B id k inner cs st m rm n).m ∧
+      KeepsR pr rm (transformChunks B id k inner cs st m rm n).rm ∧
+      Good pv pr (transformChunks B id k inner cs st m rm n).st (transformChunks B id k inner cs st m rm n).m
+        (transformChunks B id k inner cs st m rm n).rm := by
   intro cs
   induction cs with
-  | nil => intro st m n ho _ hk; exact ⟨hk, ho⟩
+  | nil => intro st m rm n hg; exact ⟨Keeps.refl _ _, KeepsR.refl _ _, hg⟩
   | cons c cs ih =>
-    intro st m n ho hb hk
-    have hn := ho.node id
-    have hf := foldl_transform_inv B k ho.1 c (m, (st.node id).slots, 0, false) ⟨hk, hb, hn.1⟩
+    intro st m rm n hg
+    have hn := hg.own.node id
+    have h0 := hg.own.pv0
+    have hf := foldl_transform_inv (m0 := m) (rm0 := rm) B k (st.node id).slots h0 hn.2.1.1 c (m, rm, 0, false)
+      ⟨Keeps.refl _ _, KeepsR.refl _ _, hg.bm, hg.br, hg.slots, hn.2.1.2⟩
     unfold transformChunks
-    generalize c.foldl (transformStep B k) (m, (st.node id).slots, 0, false) = acc at hf
-    obtain ⟨m1, slots1, num, failed⟩ := acc
-    obtain ⟨hk1, hb1, hs1⟩ := hf
+    simp only []
+    generalize c.foldl (transformStep B k (st.node id).slots) (m, rm, 0, false) = acc at hf ⊢
+    obtain ⟨m1, rm1, num, failed⟩ := acc
+    have hf' : TrInv pv pr (st.node id).slots m rm (m1, rm1, 0, false) := hf
+    obtain ⟨hk1, hkr1, hb1, hbr1, hs1, ht1⟩ := hf
     simp only []
     split
-    · have hc := clearSlots_inv ho.1 num 0 m1 slots1 hk1 hb1 hs1
-      exact ⟨hc.1, ho.set id ⟨hc.2.2, hn.2⟩⟩
-    · have ho1 : Own pv (st.set id { st.node id with slots := slots1 }) := ho.set id ⟨hs1, hn.2⟩
-      have hs := hin _ m1 (slots1.take num) ho1 hb1
-      have hn2 := hs.2.node id
-      have hc := clearSlots_inv hs.2.1 num 0 _ _ (hk1.trans hs.1) (hb1.mono hs.1) hn2.1
-      have ho2 := hs.2.set id (ns := { (inner (st.set id { st.node id with slots := slots1 }) m1 (slots1.take num)).st.node id
-        with slots := (clearSlots num 0 (inner (st.set id { st.node id with slots := slots1 }) m1 (slots1.take num)).m
-          ((inner (st.set id { st.node id with slots := slots1 }) m1 (slots1.take num)).st.node id).slots).2 }) ⟨hc.2.2, hn2.2⟩
+    · have hc := clearSlots_inv h0 (st.node id).slots hn.2.1.1 num 0 m1 rm1 hf'
+      obtain ⟨hk2, hkr2, hb2, hbr2, hs2, _⟩ := hc
+      exact ⟨hk2, hkr2, ⟨hg.own.mono hkr2, hs2, hb2, hbr2⟩⟩
+    · have hg1 : Good pv pr st m1 rm1 := ⟨hg.own.mono hkr1, hs1, hb1, hbr1⟩
+      have hs := hin st m1 rm1 ⟨(st.node id).slots.arr, (st.node id).slots.off, num, (st.node id).slots.cap⟩ hg1
+      obtain ⟨hki, hkri, hgi⟩ := hs
+      have hn2 := hgi.own.node id
+      have hc := clearSlots_inv (m0 := (inner st m1 rm1 ⟨(st.node id).slots.arr, (st.node id).slots.off, num, (st.node id).slots.cap⟩).m)
+        (rm0 := (inner st m1 rm1 ⟨(st.node id).slots.arr, (st.node id).slots.off, num, (st.node id).slots.cap⟩).rm)
+        hgi.own.pv0 _ hn2.2.1.1 num 0 _ _
+        ⟨Keeps.refl _ _, KeepsR.refl _ _, hgi.bm, hgi.br, hgi.slots, hn2.2.1.2⟩
+      obtain ⟨hk2, hkr2, hb2, hbr2, hs2, _⟩ := hc
+      have hg2 := Good.mk' hgi hk2 hkr2 hs2 (hgi.own.mono hkr2)
       split
-      · exact ⟨hc.1, ho2⟩
-      · exact ih _ _ _ ho2 hc.2.1 hc.1
+      · exact ⟨(hk1.trans hki).trans hk2, (hkr1.trans hkri).trans hkr2, hg2⟩
+      · have := ih _ _ _ (n + c.length) hg2
+        exact ⟨((hk1.trans hki).trans hk2).trans this.1, ((hkr1.trans hkri).trans hkr2).trans this.2.1, this.2.2⟩
 
-theorem makeRows_inv {pv : Nat → Bool} (m : Mem) (n : Nat) (hb : Bounded pv m) :
-    Keeps pv m (makeRows m n).1 ∧ Unprot pv (makeRows m n).2 := by
-  have hl : pv m.length = false := by
-    cases hp : pv m.length with
-    | false => rfl
-    | true => exact absurd (hb _ hp) (Nat.lt_irrefl _)
-  refine ⟨⟨by simp [makeRows], fun x hx => ?_⟩, ?_⟩
-  · have := hb x hx
-    simp [makeRows, List.getElem?_append_left this]
-  · intro h hh
-    simp only [makeRows, List.mem_map] at hh
-    obtain ⟨i, _, rfl⟩ := hh
-    exact hl
-
-theorem transform_safe (pv : Nat → Bool) (B : Beh) (id k : Nat) {inner : St → Mem → List Hdr → Res}
-    (hin : Safe pv inner) : Safe pv (transformWrite B id k inner) := by
-  intro st m rows ho hb
-  have hn := ho.node id
-  unfold transformWrite
+theorem transformInit_spec {pv pr : Nat → Bool} (id : Nat) {st : St} {m : Mem} {rm : RMem} (n : Nat)
+    (hg : Good pv pr st m rm) :
+    Keeps pv m (transformInit id st m rm n).2.1 ∧ KeepsR pr rm (transformInit id st m rm n).2.2 ∧
+      Good pv pr (transformInit id st m rm n).1 (transformInit id st m rm n).2.1 (transformInit id st m rm n).2.2 := by
+  unfold transformInit
   split
-  next m0 st0 heq =>
-    split at heq
-    · have hm := makeRows_inv (pv := pv) m rows.length hb
-      simp only [Prod.mk.injEq] at heq
-      obtain ⟨rfl, rfl⟩ := heq
-      have ho0 : Own pv (st.set id { st.node id with slots := (makeRows m rows.length).2 }) :=
-        ho.set id ⟨hm.2, hn.2⟩
-      exact transformChunks_safe B id k hin m _ _ _ 0 ho0 (hb.mono hm.1) hm.1
-    · simp only [Prod.mk.injEq] at heq
-      obtain ⟨rfl, rfl⟩ := heq
-      exact transformChunks_safe B id k hin m _ _ _ 0 ho hb (Keeps.refl _ _)
+  · have hl := fresh_unprot_v hg.bm
+    have hkm : Keeps pv m (makeRows m rm n).1 := by
+      refine ⟨by simp [makeRows], fun x hx => ?_⟩
+      have := hg.bm x hx
+      simp [makeRows, List.getElem?_append_left this]
+    have hk := push_keeps rm (true, (List.range n).map fun i => (⟨m.length, i, 0, 1⟩ : Hdr)) hg.br
+    have hs := push_slots hg.slots (true, (List.range n).map fun i => (⟨m.length, i, 0, 1⟩ : Hdr)) (by
+      intro _ h hh
+      simp only [List.mem_map] at hh
+      obtain ⟨i, _, rfl⟩ := hh
+      exact hl)
+    have ho := hg.own.mono hk
+    have hn := ho.node id
+    exact ⟨hkm, hk, ⟨ho.set id ⟨hn.1, ⟨fresh_unprot hg.br, tagOf_push_self rm _⟩, hn.2.2⟩, hs, hg.bm.mono hkm, hg.br.mono hk⟩⟩
+  · exact ⟨Keeps.refl _ _, KeepsR.refl _ _, hg⟩
+
+theorem transform_safe (pv pr : Nat → Bool) (B : Beh) (id k : Nat) {inner : Writer}
+    (hin : Safe pv pr inner) : Safe pv pr (transformWrite B id k inner) := by
+  intro st m rm rows hg
+  have h0 := transformInit_spec id (rowsOf rm rows).length hg
+  have := transformChunks_safe B id k hin
+    (chunks ((transformInit id st m rm (rowsOf rm rows).length).1.node id).slots.len (rowsOf rm rows).length (rowsOf rm rows))
+    _ _ _ 0 h0.2.2
+  unfold transformWrite
+  simp only []
+  exact ⟨h0.1.trans this.1, h0.2.1.trans this.2.1, this.2.2⟩
 
 /-! ### dedupe, multi -/
 
-theorem dedupe_safe (pv : Nat → Bool) (B : Beh) (id k : Nat) {inner : St → Mem → List Hdr → Res}
-    (hin : Safe pv inner) : Safe pv (dedupeWrite B id k inner) := by
-  intro st m rows ho hb
-  have hn := ho.node id
+theorem deduplicate_spec {pv pr : Nat → Bool} (B : Beh) (k : Nat) (m : Mem) (rm : RMem) (last : Hdr) (rows : RHdr)
+    (hb : Bounded pv m) (hs : SlotsOk pv rm) (hl : pv last.arr = false) (hp : pr rows.arr = false)
+    (ht : tagOf rm rows.arr = false) :
+    Keeps pv m (deduplicate B k m rm last rows).1 ∧ KeepsR pr rm (deduplicate B k m rm last rows).2.1 ∧
+      SlotsOk pv (deduplicate B k m rm last rows).2.1 ∧ pv (deduplicate B k m rm last rows).2.2.1.arr = false := by
+  unfold deduplicate
+  generalize (rowsOf rm rows).foldl (dedupeStep B k m) (last, [], []) = acc
+  obtain ⟨lastRow, uniq, dupe⟩ := acc
+  simp only []
+  have hd : pv ({ last with len := 0 } : Hdr).arr = false := hl
+  have ha := append_keeps m { last with len := 0 } (row m lastRow) hb hd
+  exact ⟨ha.1, storeR_keeps rm _ _ _ hp, storeR_slots hs _ _ _ (untagged ht), ha.2⟩
+
+theorem dedupe_safe (pv pr : Nat → Bool) (B : Beh) (id k : Nat) {inner : Writer}
+    (hin : Safe pv pr inner) : Safe pv pr (dedupeWrite B id k inner) := by
+  intro st m rm rows hg
+  have hn := hg.own.node id
+  have ha := appendR_spec (pv := pv) rm false (st.node id).held.empty (rowsOf rm rows) hg.br hg.slots
+    hn.1.1 hn.1.2.1 hn.1.2.2 (by intro h; cases h)
   unfold dedupeWrite
   simp only []
-  generalize rows.foldl (dedupeStep B k m) ((st.node id).hdr, []) = acc
-  obtain ⟨lastRow, uniq⟩ := acc
-  simp only []
-  have hd : pv ({ (st.node id).hdr with len := 0 } : Hdr).arr = false := hn.2
-  have ha := append_keeps m _ (row m lastRow) hb hd
-  have ho1 : Own pv (st.set id { st.node id with
-      hdr := (append m { (st.node id).hdr with len := 0 } (row m lastRow)).2 }) := ho.set id ⟨hn.1, ha.2⟩
+  generalize appendR rm false (st.node id).held.empty (rowsOf rm rows) = ar at ha ⊢
+  obtain ⟨rm0, dr⟩ := ar
+  simp only [] at ha ⊢
+  obtain ⟨hkr0, hs0, hp0, hl0, ht0⟩ := ha
+  have hd := deduplicate_spec (pr := pr) B k m rm0 (st.node id).hdr dr hg.bm hs0 hn.2.2 hp0 ht0
+  generalize deduplicate B k m rm0 (st.node id).hdr dr = dd at hd ⊢
+  obtain ⟨m1, rm1, last1, n⟩ := dd
+  simp only [] at hd ⊢
+  obtain ⟨hk1, hkr1, hs1, hv1⟩ := hd
+  have hkr01 := hkr0.trans hkr1
+  have ho1 := hg.own.mono hkr01
+  have hn1 := (hn.mono hkr01)
+  have ht1 : tagOf rm1 dr.arr = false := (hkr1.2.1 _ hl0).trans ht0
+  have hl1 : dr.arr < rm1.length := Nat.lt_of_lt_of_le hl0 hkr1.1
+  have hg1 : Good pv pr (st.set id { st.node id with hdr := last1, held := dr }) m1 rm1 :=
+    Good.mk' hg hk1 hkr01 hs1 (ho1.set id ⟨⟨hp0, hl1, ht1⟩, hn1.2.1, hv1⟩)
   split
-  · have hs := hin _ _ uniq ho1 (hb.mono ha.1)
+  · have hs := hin _ _ _ ⟨dr.arr, dr.off, n, dr.cap⟩ hg1
+    generalize inner (st.set id { st.node id with hdr := last1, held := dr }) m1 rm1 ⟨dr.arr, dr.off, n, dr.cap⟩ = r at hs ⊢
+    obtain ⟨hki, hkri, hgi⟩ := hs
+    have hn2 := hgi.own.node id
+    have hk2 := storeR_keeps (pr := pr) r.rm (r.st.node id).held.arr (r.st.node id).held.off
+      (List.replicate (r.st.node id).held.len Hdr.nil) hn2.1.1
+    have hg2 := Good.mk' hgi (Keeps.refl _ _) hk2 (storeR_slots hgi.slots _ _ _ (untagged hn2.1.2.2)) (hgi.own.mono hk2)
     split
-    · exact ⟨ha.1.trans hs.1, hs.2⟩
-    · exact ⟨ha.1.trans hs.1, hs.2⟩
-  · exact ⟨ha.1, ho1⟩
+    · exact ⟨hk1.trans hki, (hkr01.trans hkri).trans hk2, hg2⟩
+    · exact ⟨hk1.trans hki, (hkr01.trans hkri).trans hk2, hg2⟩
+  · have hk2 := storeR_keeps (pr := pr) rm1 dr.arr dr.off (List.replicate dr.len Hdr.nil) hp0
+    exact ⟨hk1, hkr01.trans hk2, Good.mk' hg1 (Keeps.refl _ _) hk2 (storeR_slots hg1.slots _ _ _ (untagged ht1)) (hg1.own.mono hk2)⟩
 
-theorem multi_safe (pv : Nat → Bool) {wa wb : St → Mem → List Hdr → Res} (ha : Safe pv wa) (hb' : Safe pv wb) :
-    Safe pv (multiWrite wa wb) := by
-  intro st m rows ho hb
-  have h1 := ha st m rows ho hb
-  have h2 := hb' _ _ rows h1.2 (hb.mono h1.1)
+theorem multi_safe (pv pr : Nat → Bool) {wa wb : Writer} (ha : Safe pv pr wa) (hb' : Safe pv pr wb) :
+    Safe pv pr (multiWrite wa wb) := by
+  intro st m rm rows hg
+  have h1 := ha st m rm rows hg
+  have h2 := hb' _ _ _ rows h1.2.2
+  have h12 : Keeps pv m (wb (wa st m rm rows).st (wa st m rm rows).m (wa st m rm rows).rm rows).m ∧
+      KeepsR pr rm (wb (wa st m rm rows).st (wa st m rm rows).m (wa st m rm rows).rm rows).rm ∧
+      Good pv pr (wb (wa st m rm rows).st (wa st m rm rows).m (wa st m rm rows).rm rows).st
+        (wb (wa st m rm rows).st (wa st m rm rows).m (wa st m rm rows).rm rows).m
+        (wb (wa st m rm rows).st (wa st m rm rows).m (wa st m rm rows).rm rows).rm :=
+    ⟨h1.1.trans h2.1, h1.2.1.trans h2.2.1, h2.2.2⟩
   unfold multiWrite
   simp only []
   split
@@ -253,40 +494,41 @@ theorem multi_safe (pv : Nat → Bool) {wa wb : St → Mem → List Hdr → Res}
   · split
     · exact h1
     · split
-      · exact ⟨h1.1.trans h2.1, h2.2⟩
+      · exact h12
       · split
-        · exact ⟨h1.1.trans h2.1, h2.2⟩
-        · exact ⟨h1.1.trans h2.1, h2.2⟩
+        · exact h12
+        · exact h12
 
 /-- every writer object built from the mirrors, without an unrepaired filter node, is safe -/
-theorem write_safe (pv : Nat → Bool) (B : Beh) : ∀ sh : Shape, sh.repaired = true → Safe pv (write B sh) := by
+theorem write_safe (pv pr : Nat → Bool) (B : Beh) : ∀ sh : Shape, sh.repaired = true → Safe pv pr (write B sh) := by
   intro sh
   induction sh with
-  | sink id failAt => intro _; exact sink_safe pv id failAt
-  | rowbuf id => intro _; exact rowbuf_safe pv id
+  | sink id failAt => intro _; exact sink_safe pv pr id failAt
+  | rowbuf id => intro _; exact rowbuf_safe pv pr id
   | filter asIs id k inner ih =>
     intro h
     simp only [Shape.repaired, Bool.and_eq_true, Bool.not_eq_eq_eq_not, Bool.not_true] at h
     obtain ⟨h1, h2⟩ := h
     subst h1
-    exact filter_safe pv B id k (ih h2)
-  | transform id k inner ih => intro h; exact transform_safe pv B id k (ih h)
-  | dedupe id k inner ih => intro h; exact dedupe_safe pv B id k (ih h)
+    exact filter_safe pv pr B id k (ih h2)
+  | transform id k inner ih => intro h; exact transform_safe pv pr B id k (ih h)
+  | dedupe id k inner ih => intro h; exact dedupe_safe pv pr B id k (ih h)
   | multi a b iha ihb =>
     intro h
     simp only [Shape.repaired, Bool.and_eq_true] at h
-    exact multi_safe pv (iha h.1) (ihb h.2)
+    exact multi_safe pv pr (iha h.1) (ihb h.2)
 
-theorem run_safe (pv : Nat → Bool) (B : Beh) (sh : Shape) (hr : sh.repaired = true) :
-    ∀ (batches : List (List Hdr)) (st : St) (m : Mem), Own pv st → Bounded pv m →
-      Keeps pv m (run B sh batches st m).2.1 ∧ Own pv (run B sh batches st m).1 := by
+theorem run_safe (pv pr : Nat → Bool) (B : Beh) (sh : Shape) (hr : sh.repaired = true) :
+    ∀ (batches : List RHdr) (st : St) (m : Mem) (rm : RMem), Good pv pr st m rm →
+      Keeps pv m (run B sh batches st m rm).m ∧ KeepsR pr rm (run B sh batches st m rm).rm ∧
+        Good pv pr (run B sh batches st m rm).st (run B sh batches st m rm).m (run B sh batches st m rm).rm := by
   intro batches
   induction batches with
-  | nil => intro st m ho _; exact ⟨Keeps.refl _ _, ho⟩
+  | nil => intro st m rm hg; exact ⟨Keeps.refl _ _, KeepsR.refl _ _, hg⟩
   | cons b bs ih =>
-    intro st m ho hb
-    have h1 := write_safe pv B sh hr st m b ho hb
-    have h2 := ih _ _ h1.2 (hb.mono h1.1)
-    exact ⟨h1.1.trans h2.1, h2.2⟩
+    intro st m rm hg
+    have h1 := write_safe pv pr B sh hr st m rm b hg
+    have h2 := ih _ _ _ h1.2.2
+    exact ⟨h1.1.trans h2.1, h1.2.1.trans h2.2.1, h2.2.2⟩
 
 end PqModel.WriteOwn
